@@ -510,7 +510,10 @@ class Runner:
         elif self.tier == "quick":
             # the quick tier is the check run on every change: no single harness may hold it up
             h.timeout = min(h.timeout, QUICK_TIMEOUT)
-        rc, timed_out, out, wall = self.run_with_retry(cmd, h.timeout, log)
+        # the thorough tier trades parallelism for memory: 24 GB per harness (the give-way logic keeps the
+        # machine alive); the quick tier keeps the 14 GB cap so that 16 slots stay usable
+        cap = None if self.tier == "quick" or "VERIF_MEM_KB" in os.environ else max(MEM_KB, 24 * 1024 * 1024)
+        rc, timed_out, out, wall = self.run_with_retry(cmd, h.timeout, log, cap)
         res = parse_kani(out)
         pk = re.findall(r"\[driver\] peak_rss_kb=(\d+)", out)
         res["peak_rss_mb"] = int(pk[-1]) // 1024 if pk else 0
@@ -540,7 +543,8 @@ def classify(h, res, out):
     if "[driver] gave way" in out:
         return "inconclusive", "machine short of memory (other processes); re-run when it is idle"
     if "[driver] killed: resident memory" in out or "Out of memory" in out:
-        return "inconclusive", "out of memory (cap %d MB)" % (MEM_KB // 1024)
+        m = re.search(r"\[driver\] killed: resident memory above (\d+) MB", out)
+        return "inconclusive", "out of memory (cap %s MB)" % (m.group(1) if m else MEM_KB // 1024)
     if res["verdict"] is None:
         if "error[" in out or "error:" in out:
             tail = "\n".join(out.strip().splitlines()[-25:])
